@@ -325,9 +325,7 @@ func (c *SimConn) SetWriteDeadline(t time.Time) error { return nil }
 type rawConn struct{ c *SimConn }
 
 func (c *SimConn) SyscallConn() (syscall.RawConn, error) {
-	if c.st.closed {
-		return nil, c.opErr("raw-control", real.ErrClosed)
-	}
+	// as net.TCPConn: succeeds on a closed conn too; Control then reports the error
 	return rawConn{c}, nil
 }
 
